@@ -117,9 +117,10 @@
                 (case (car x)
                   ((only)
                    (map (lambda (imp)
-                          (if (or (boolean? imp-ids) (memq imp imp-ids))
+                          (if (boolean? imp-ids)
                               imp
-                              (error "importing unknown binding" imp imp-ids)))
+                              (or (find (lambda (i) (eq? imp (to-id i))) imp-ids)
+                                  (error "importing unknown binding" imp imp-ids))))
                         (cddr x)))
                   ((except)
                    (id-filter (lambda (i) (not (memq i (cddr x)))) imp-ids))
